@@ -32,3 +32,30 @@ func run(c tsofix.Case) (vkit.Info, error) {
 func init() {
 	vkit.Register("history", vkit.N{Quick: 1500, Thorough: 40000}, func(t *rapid.T) tsofix.Case { return tsofix.GenCase(t, "c01") }, run)
 }
+
+// The allocator daemon's window update is parked right after its save txn returned, the leader loop steps down
+// (leadership given up, allocator group reset), the update then writes its physical time into the memory that was
+// just cleared; another member leads and grants; the first member wins again and a request reaches it before its
+// allocator has been re-initialised: it is answered from the stale memory, below what the other member granted.
+func TestFinding_UpdateRefillsMemoryAfterStepDown(t *testing.T) {
+	c := tsofix.Case{
+		Cfg: tsofix.Cfg{Members: 2, SaveMs: 3000, UpdMs: 50, MaxGapMs: 24 * 3600 * 1000, TTL: 100000, Offsets: []int64{0, 0}},
+		Ops: []tsofix.Op{
+			{K: "campaign", M: 0}, {K: "gen", M: 0, Count: 1}, {K: "clockall", D: 3001},
+			{K: "race", M: 0, After: true, Sched: []int{0, 1, 1, 0, 2, 2, 0, 3, 2, 0}, Tasks: []tsofix.Task{{K: "update"}, {K: "stepdown"}}},
+			{K: "campaign", M: 1}, {K: "gen", M: 1, Count: 1}, {K: "clockall", D: 50}, {K: "update", M: 1}, {K: "gen", M: 1, Count: 1},
+			{K: "resign", M: 1},
+			{K: "campaign", M: 0, Mid: 10}, {K: "gen", M: 0, Count: 1},
+		}}
+	rep, detail := false, "no C01 violation on the probe history"
+	for i := 0; i < 3 && !rep; i++ {
+		_, viol := tsofix.Run(c, "C01")
+		for _, v := range viol {
+			if v.Prop == "C01" {
+				rep, detail = true, v.Msg
+				break
+			}
+		}
+	}
+	vkit.Finding(t, "C01/update-refills-memory-after-step-down", rep, detail)
+}
